@@ -33,8 +33,11 @@ var StrMembers = map[string][]string{
 		strings.Repeat("x", 31) + "𐍈" + strings.Repeat("y", 31) + "😀", strings.Repeat("ž", 63) + "😀", strings.Repeat("a", 127) + "𝄞" + strings.Repeat("b", 127) + "😀", strings.Repeat("q", 255) + "😀"},
 	"astralnp": {"\U000e0001", "\U000f0000", "\U0010ffff", "\U0003fffe", "\U000e0001\U000e0002"},
 	"sigils":   {".", "#", ".a#1", "a.b", "#0"},
-	"brackets": {"]", "}", "see [1] and [2]", "{\"ids\":[1,2]}", "],[", "\\\"]", "™]x", "a•}", "Ģ]", "Ŝ\"]"},
-	"long":     {strings.Repeat("ab", 300), strings.Repeat("é", 129)},
+	"brackets": {"]", "}", "see [1] and [2]", "{\"ids\":[1,2]}", "],[", "- [ ] todo", "{ }", "[   ]x{  }", ", : ,", "\\\"]", "™]x", "a•}", "Ģ]", "Ŝ\"]"},
+	// the later members: a multi-byte character that straddles byte offset 64, 128, 256, 1024, 4096 of the literal
+	"long": {strings.Repeat("ab", 300), strings.Repeat("é", 129), strings.Repeat("a", 63) + "é" + strings.Repeat("b", 64) + "漢" + strings.Repeat("c", 125) + "😀",
+		strings.Repeat("a", 62) + "漢" + "tail", strings.Repeat("a", 61) + "😀" + strings.Repeat("a", 62) + "😀", strings.Repeat("x", 1023) + "ž" + strings.Repeat("y", 3070) + "漢z",
+		strings.Repeat("q", 127) + "é", strings.Repeat("q", 255) + "😀q"},
 }
 
 // StrClassOrder is the class list (stable order for reports).
